@@ -194,20 +194,50 @@ def phase1(m, w, units_of):
 
 def phase2(m, w):
     env = dict(os.environ, CARGO_TARGET_DIR=w.target, CARGO_NET_OFFLINE="true", RUSTFLAGS="-Awarnings")
+    # own process group: on a timeout the hung test binary (a grandchild) must die with cargo
+    import signal
+    pr = subprocess.Popen(["cargo", "test", "--offline", "--lib", "--quiet"], cwd=w.repo, env=env, stdout=subprocess.PIPE, stderr=subprocess.STDOUT, text=True, start_new_session=True)
     try:
-        p = subprocess.run(["cargo", "test", "--offline", "--lib", "--quiet"], cwd=w.repo, env=env, capture_output=True, text=True, timeout=900)
+        out, _ = pr.communicate(timeout=600)
     except subprocess.TimeoutExpired:
+        os.killpg(pr.pid, signal.SIGKILL)
+        pr.communicate()
         return "tests-hang"
-    out = p.stdout + p.stderr
+
+    class p:     # noqa
+        returncode = pr.returncode
     if p.returncode == 0:
         return "tests-pass"
     if re.search(r"^error(\[E\d+\])?:", out, re.M) and "test result" not in out:
         return "stillborn"
-    return "tests-fail"
+    # several of the crate's tests are timing-dependent and fail under load on the pristine tree too: a failure counts only if the
+    # same test fails again twice when run on its own
+    failed = sorted(set(re.findall(r"^    ([\w:]+)$", out.split("failures:")[-1], re.M)))
+    if not failed:
+        return "tests-fail"
+    for t in failed:
+        bad = 0
+        for _ in range(2):
+            try:
+                q = subprocess.run(["cargo", "test", "--offline", "--lib", "--quiet", t, "--", "--exact", "--test-threads", "1"], cwd=w.repo, env=env, capture_output=True, text=True, timeout=600)
+                bad += (q.returncode != 0)
+            except subprocess.TimeoutExpired:
+                bad += 1
+        if bad == 2:
+            return "tests-fail:" + t.split("::")[-1]
+    return "tests-pass"
 
 
-def phase3(m, w):
-    for pid in PROPS_BY_FILE.get(m["file"], []):
+GUARDED = ("C20", "C19")      # properties whose quick check runs bounded guards besides the proofs
+
+
+def phase3(m, w, p1):
+    """the registered quick checks add to phase 1: the bounded guards (always) and the bounded stand-in (only when the verifier was
+    undecided).  So: every dependent property when phase 1 left undecided notes, otherwise only the guarded ones."""
+    props = PROPS_BY_FILE.get(m["file"], [])
+    if not p1["undecided"]:
+        props = [p for p in props if p in GUARDED]
+    for pid in props:
         out = tempfile.mkdtemp(prefix="ms3-", dir=w.dir)
         try:
             env = dict(os.environ, VERIF_REPO=w.repo, VERIF_OUT=out, VERIF_TIER="quick")
@@ -239,17 +269,29 @@ def main():
             opt["out"] = args[i + 1]; i += 2
         elif args[i] == "--phase1-only":
             opt["p1"] = True; i += 1
+        elif args[i] == "--skip":
+            opt["skip"] = int(args[i + 1]); i += 2
+        elif args[i] == "--recheck":
+            opt["recheck"] = args[i + 1]; i += 2
+        elif args[i] == "--recheck-verdict":
+            opt["recheck_verdict"] = args[i + 1]; i += 2
         elif args[i] == "--list":
             opt["list"] = True; i += 1
         else:
             i += 1
     spans, units_of = targets()
     muts = gen(spans, opt["files"])
+    if opt.get("recheck"):
+        with open(opt["recheck"]) as f:
+            prev = json.load(f)
+        want = set((r["file"], r["line"], r["after"]) for r in prev["results"] if r.get("verdict", "").startswith(opt.get("recheck_verdict", "tests-fail")))
+        muts = [m for m in muts if (m["file"], m["line"], m["after"]) in want]
     if opt["ops"]:
         muts = [m for m in muts if m["op"] in opt["ops"]]
     if opt["limit"]:
         step = max(1, len(muts) // opt["limit"])
         muts = muts[::step][:opt["limit"]]
+    muts = muts[opt["skip"]:]
     print("%d mutants over %d functions in %d files" % (len(muts), sum(len(v) for v in spans.values()), len(spans)))
     if opt.get("list"):
         for m in muts:
@@ -286,7 +328,7 @@ def main():
                 if t != "tests-pass":
                     r["verdict"] = t
                 else:
-                    r["verdict"] = phase3(m, w)
+                    r["verdict"] = phase3(m, w, p1)
             return r
         except Exception as e:      # noqa
             return dict(id=m["id"], verdict="tool-error: %r" % (e,))
